@@ -272,11 +272,14 @@ static void one_case(const Toks &t, Out &o)
     Extra x;
     make_extra(parts[2], 2, x);
     if (!s || !p.ok || !make_tid(parts[2][0], gen) || !x.ok) { o.tag("BADCASE"); return; }
-    std::vector<std::unique_ptr<sdktrace::SpanProcessor>> procs;
-    auto ctx = std::make_shared<sdktrace::TracerContext>(
-        std::move(procs), opentelemetry::sdk::resource::Resource::Create({}), std::unique_ptr<sdktrace::Sampler>(new Shared(s)),
-        std::unique_ptr<sdktrace::IdGenerator>(new FixedIdGenerator(gen, parts[2][1].as_ll() != 0)));
-    auto tracer = std::make_shared<sdktrace::Tracer>(ctx);
+    auto make_tracer = [&](trace_api::TraceId id) {
+      std::vector<std::unique_ptr<sdktrace::SpanProcessor>> procs;
+      auto ctx = std::make_shared<sdktrace::TracerContext>(
+          std::move(procs), opentelemetry::sdk::resource::Resource::Create({}), std::unique_ptr<sdktrace::Sampler>(new Shared(s)),
+          std::unique_ptr<sdktrace::IdGenerator>(new FixedIdGenerator(id, parts[2][1].as_ll() != 0)));
+      return std::make_shared<sdktrace::Tracer>(ctx);
+    };
+    auto tracer = make_tracer(gen);
     trace_api::StartSpanOptions opts;
     opts.parent = p.sc;
     opts.kind   = x.kind;
@@ -287,6 +290,13 @@ static void one_case(const Toks &t, Out &o)
     char tb[16];
     sc.trace_id().CopyBytesTo(nostd::span<uint8_t, 16>(reinterpret_cast<uint8_t *>(tb), 16));
     o.bytes(tb, 16).num(sc.trace_flags().flags()).bytes(sc.trace_state()->ToHeader()).boolean(span->IsRecording());
+    // another participant: the root span of the same trace on a second tracer with the same sampler
+    auto tracer2 = make_tracer(sc.trace_id());
+    trace_api::StartSpanOptions root_opts;
+    root_opts.kind = x.kind;
+    auto root = tracer2->StartSpan(nostd::string_view(x.name->p, x.name->n), av, lv, root_opts);
+    o.num(root->GetContext().trace_flags().flags());
+    root->End();
     span->End();
     return;
   }
